@@ -258,7 +258,7 @@ Lemma parallel_init_inv : forall a c r, parallel_init a c = Ok r ->
   (* n_jobs *)
   (forall n, njobs_arg a = Some n -> r_njobs r = n) /\
   (njobs_arg a = None -> forced a c = false ->
-     r_njobs r = match c_njobs c with Some (Some n) => n | _ => 1 end) /\
+     r_njobs r = match c_njobs c with Some (Some n) => n | _ => default_n_jobs (r_kind r) end) /\
   (njobs_arg a = None -> forced a c = true -> r_njobs r = 1) /\
   (* backend *)
   (forall kd l, a_backend a = Some (BInst kd l) -> r_kind r = kd) /\
@@ -429,7 +429,7 @@ Lemma C17_priority_holds : forall k cur a r,
   conv_maxnb (prio (a_maxnb a) s_maxnb sp d_maxnb) = Ok (r_kw_maxnb r) /\
   (forall n, njobs_arg a = Some n -> r_njobs r = n) /\
   (njobs_arg a = None -> forced a cur = false ->
-     r_njobs r = match innermost s_njobs sp with Some (Some n) => n | _ => 1 end) /\
+     r_njobs r = match innermost s_njobs sp with Some (Some n) => n | _ => default_n_jobs (r_kind r) end) /\
   (forall kd l, a_backend a = Some (BInst kd l) -> r_kind r = kd) /\
   (a_backend a = None -> forced a cur = false ->
      r_kind r = match innermost spec_kind sp with Some kd => kd | None => BLoky end).
@@ -518,7 +518,7 @@ Lemma C17_priority_src : forall k cur a r,
   conv_maxnb (prio (a_maxnb a) s_maxnb sp d_maxnb) = Ok (r_kw_maxnb r) /\
   (forall n, njobs_arg a = Some n -> r_njobs r = n) /\
   (njobs_arg a = None -> forced a cur = false ->
-     r_njobs r = match innermost s_njobs sp with Some (Some n) => n | _ => 1 end) /\
+     r_njobs r = match innermost s_njobs sp with Some (Some n) => n | _ => default_n_jobs (r_kind r) end) /\
   (forall kd l, a_backend a = Some (BInst kd l) -> r_kind r = kd) /\
   (a_backend a = None -> forced a cur = false ->
      r_kind r = match innermost spec_kind sp with Some kd => kd | None => BLoky end).
@@ -741,3 +741,13 @@ Proof. reflexivity. Qed.
 
 Lemma loky_fresh_uses_given : forall k m prev given, loky_folder_used k m prev given false = given.
 Proof. reflexivity. Qed.
+
+(* ------------------------------------------------- three more regenerated facts (round 7) *)
+Lemma default_njobs_owner : default_njobs_of_used_backend = true.
+Proof. reflexivity. Qed.
+
+Lemma batch_njobs_same : forall pickled n, batch_njobs_in_worker reduce_keeps_njobs pickled n = n.
+Proof. intros [] n; reflexivity. Qed.
+
+Lemma idle_timeout_priority : forall call obj, src_idle_worker_timeout call obj = Ok (gcp call obj 300).
+Proof. intros [c|] [o|]; reflexivity. Qed.
